@@ -57,13 +57,21 @@ pub struct Text {
     pub tile_to: u32,
     #[serde(with = "chars_as_string", default)]
     pub tail: Vec<char>,
+    /// literal text in front of the (tiled) motif
+    #[serde(with = "chars_as_string", default)]
+    pub head: Vec<char>,
 }
 impl Text {
     pub fn plain(v: Vec<char>) -> Text {
-        Text { motif: v, tile_to: 0, tail: vec![] }
+        Text { motif: v, tile_to: 0, tail: vec![], head: vec![] }
     }
     pub fn expand(&self) -> Vec<char> {
-        let mut v: Vec<char> = if self.tile_to == 0 || self.motif.is_empty() { self.motif.clone() } else { self.motif.iter().copied().cycle().take(self.tile_to as usize).collect() };
+        let mut v: Vec<char> = self.head.clone();
+        if self.tile_to == 0 || self.motif.is_empty() {
+            v.extend_from_slice(&self.motif);
+        } else {
+            v.extend(self.motif.iter().copied().cycle().take(self.tile_to as usize));
+        }
         v.extend_from_slice(&self.tail);
         v
     }
@@ -298,11 +306,11 @@ fn limit_case() -> BoxedStrategy<MCase> {
             let (hl, nl) = limit_sizes()[size];
             let nmotif: Vec<char> = motif.iter().map(|&c| norm_fix(vcommon::oracle::norm(c, cfg), cfg)).collect();
             let needle = match shape {
-                0 => Text { motif: nmotif, tile_to: nl, tail: vec![] },
-                1 => Text { motif: nmotif, tile_to: nl.saturating_sub(1), tail: vec![norm_fix(pal[map_idx(mutsel, pal.len())], cfg)] },
-                _ => Text { motif: vec![nmotif[0]], tile_to: nl, tail: vec![] },
+                0 => Text { motif: nmotif, tile_to: nl, tail: vec![], head: vec![] },
+                1 => Text { motif: nmotif, tile_to: nl.saturating_sub(1), tail: vec![norm_fix(pal[map_idx(mutsel, pal.len())], cfg)], head: vec![] },
+                _ => Text { motif: vec![nmotif[0]], tile_to: nl, tail: vec![], head: vec![] },
             };
-            MCase { hay: Text { motif, tile_to: hl, tail: vec![] }, needle, cfg, prior, cap_mode: 2 }
+            MCase { hay: Text { motif, tile_to: hl, tail: vec![], head: vec![] }, needle, cfg, prior, cap_mode: 2 }
         })
         .boxed()
 }
@@ -315,14 +323,40 @@ fn long_case() -> BoxedStrategy<MCase> {
             let motif = text_from(&pal, &ms);
             let cfg = Cfg { ignore_case: ic, normalize: nz, prefer_prefix: false, profile };
             let nmotif: Vec<char> = motif.iter().map(|&c| vcommon::oracle::norm(c, cfg)).collect();
-            MCase { hay: Text { motif, tile_to: nl + extra, tail: vec![] }, needle: Text { motif: nmotif, tile_to: nl, tail: vec![] }, cfg, prior: vec![], cap_mode: 2 }
+            MCase { hay: Text { motif, tile_to: nl + extra, tail: vec![], head: vec![] }, needle: Text { motif: nmotif, tile_to: nl, tail: vec![], head: vec![] }, cfg, prior: vec![], cap_mode: 2 }
+        })
+        .boxed()
+}
+
+/// matches far away from the haystack start, or with a huge gap: a small haystack behind (or split around)
+/// 65530..200000 filler characters that no needle character matches (offsets and gaps beyond 16 bits)
+fn far_case() -> BoxedStrategy<MCase> {
+    (gen::any_palette(), hay_sels(), gen::any_cfg(), proptest::sample::select(vec![65_530u32, 65_533, 65_534, 65_535, 65_536, 65_537, 65_540, 70_000, 131_072, 200_000]), 0u8..3, any::<bool>(), proptest::collection::vec(any::<u32>(), 0..=2))
+        .prop_flat_map(|(pal, hs, cfg, fill, shape, ascii_fill, prior)| {
+            let hay = text_from(&pal, &hs);
+            let maxn = hay.len().min(8).max(1);
+            (Just(pal), Just(hay), Just(cfg), needle_mode(maxn), Just(fill), Just(shape), Just(ascii_fill), Just(prior))
+        })
+        .prop_map(|(pal, hay, cfg, mode, fill, shape, ascii_fill, prior)| {
+            let needle = derive_needle(&hay, &pal, cfg, &mode);
+            let filler = if ascii_fill { 'q' } else { 'й' };
+            // shape 0: filler then the small haystack; 1: first char, filler, rest (one huge gap); 2: small haystack, filler, small haystack again
+            let text = match shape {
+                0 => Text { motif: vec![filler], tile_to: fill, tail: hay, head: vec![] },
+                1 => {
+                    let k = hay.len().min(1);
+                    Text { motif: vec![filler], tile_to: fill, tail: hay[k..].to_vec(), head: hay[..k].to_vec() }
+                }
+                _ => Text { motif: vec![filler], tile_to: fill, tail: hay.clone(), head: hay },
+            };
+            MCase { hay: text, needle: Text::plain(needle), cfg, prior, cap_mode: 2 }
         })
         .boxed()
 }
 
 /// the C01/C02/C03 domain. `limit_pct` / `long_pct` in percent of cases.
 pub fn mcase_strategy(limit_w: u32, long_w: u32) -> BoxedStrategy<MCase> {
-    let reg_w = 1000 - limit_w - long_w;
+    let reg_w = 1000 - limit_w - long_w - if limit_w > 0 { 6 } else { 0 };
     if limit_w == 0 && long_w == 0 {
         return regular_case();
     }
@@ -332,6 +366,9 @@ pub fn mcase_strategy(limit_w: u32, long_w: u32) -> BoxedStrategy<MCase> {
     }
     if long_w > 0 {
         v.push((long_w, long_case()));
+    }
+    if limit_w > 0 {
+        v.push((6, far_case()));
     }
     proptest::strategy::Union::new_weighted(v).boxed()
 }
